@@ -32,6 +32,11 @@ template class ST::uint_formatter<unsigned long long>;
 template class ST::float_formatter<float>;
 template class ST::float_formatter<double>;
 
+// the library's default character set of the trim functions, as a constant the rules can read (R08.9)
+#ifdef ST_WHITESPACE
+extern "C" const char stverif_default_whitespace[] = ST_WHITESPACE;
+#endif
+
 namespace stverif_driver
 {
     using namespace ST::literals;
